@@ -1,4 +1,5 @@
 import Tahoe.Immutable.FetchLemmasC03
+import Tahoe.Immutable.SegLemmas
 /-! C03 — immutable availability with k good shares (property theorems over the SegmentFetcher
 event system `Tahoe.Fetch`; helper lemmas in `Tahoe/Immutable/FetchLemmas*.lean`).
 
@@ -7,7 +8,34 @@ environment — the finder announces each share once and then says `no_more_shar
 `get_block` was called sends (optionally OVERDUE and then) exactly one terminal event, COMPLETE iff
 the share is good; every queued `loop` runs; at the end nothing is pending.  Any placement (several
 shares per server, several servers per share number), any set of bad or late shares, any
-interleaving. -/
+interleaving.
+
+## Coverage of the statement (properties.jsonl C03)
+
+| clause of the statement | covered by |
+|---|---|
+| ≥ k shares with distinct share numbers intact on answering servers ⇒ the segment fetch succeeds | `enough_good_shares_succeed` (fetcher event system, all fair histories) |
+| … whatever happens to the other shares / servers: missing, corrupted, erroring, disconnecting mid-read | same theorem: `Fair` lets every non-good share answer CORRUPT / DEAD / BADSEGNUM at any time, any placement (several shares per server), any interleaving; *that share.py / finder.py turn those faults into exactly these events* is the assumption `Fair` — monitor only (end-to-end fault schedules) |
+| … or answering late | `Fair` allows OVERDUE before the terminal event of any share (theorem); late DYHB answers / finder overdue timers: monitor only (ShareFinder not modelled) |
+| the read (not just one segment fetch) succeeds, whatever the reader's segment-size guess | read layer: `genuine_segment_is_accepted` (a genuine answer is accepted and makes progress), `C46.bad_segnum_retry` (a wrong guess costs one retry with the real size), `C46.read_writes_exact_range` (success ⇒ exactly the requested range was written); node layer: `C46.no_stuck_state`.  The three layers are composed by hand (a request's Deferred fires ⇔ the node retired it), not in one Lean system — `read_succeeds_partial` below says what is missing |
+| < k distinct good shares reachable ⇒ the read fails with a not-enough-shares error | `too_few_fail` (fetcher: `fetch_failed(NotEnoughShares | NoShares)`); node layer retires the requests with that Failure (`C46.no_stuck_state` + correspondence); Segmentation passes it to the read's errback (`C46.bad_segnum_retry`, second part) |
+| … instead of returning data | `too_few_fail`, second conjunct (no prefix of the run calls `process_blocks`); that delivered bytes are right is C02 |
+| quantifier: all placements on up to N+3 servers, all subsets of failed shares, failures before/during/after block fetches, all response orders and overdue firings | theorems quantify over all event lists satisfying `Fair` (no bound); server-level faults reach the model only as share events — monitor only for the mapping |
+
+Remaining assumptions: `Fair` (FetchEnv.lean) — the finder announces every share once and then says
+`no_more_shares` (finder.py, not modelled: bounded parallelism, overdue promotion, its 10 s timers);
+every share whose `get_block` was called sends exactly one terminal event, COMPLETE iff it is intact
+on an answering server (share.py, not modelled; since /repo 4f1ea1b a dead share answers DEAD, since
+b6b8db9 a wrong guess no longer kills good shares — both found by the monitors of this check);
+foolscap's eventual-send queue runs every queued turn; a server that neither answers nor disconnects
+is outside the statement.
+
+`read_succeeds_partial` (not stated as one theorem): "for every fair history of the whole stack
+(finder + shares + fetchers + node + Segmentation) with ≥ k good shares the read's Deferred fires with
+the requested bytes".  Proved: each layer's half of the contract (theorems above).  Missing: a single
+Lean transition system that routes `get_segment` / `_deliver` between `Seg` and `Node` and one fetcher
+environment per segment, with the induction over it.
+-/
 namespace Tahoe.C03
 open Tahoe.Fetch
 
@@ -90,6 +118,35 @@ theorem too_few_fail (good : Nat → Bool) (k : Nat) (es : List Ev)
       refine ⟨e, rfl, ?_⟩
       have := (hi.failJust e hv).1
       cases e <;> simp at this ⊢
+
+
+/-- **C03, read layer (one step of "whatever the segment-size guess").**  When the node answers a
+request with the genuine segment containing the read's current offset — which is what it does once
+the real segment size is known and its fetcher succeeded (`enough_good_shares_succeed`) — the read
+accepts it: it writes at least one byte starting exactly at its offset, keeps `offset + size`
+invariant and does not fail.  (With `C46.bad_segnum_retry` — a wrong guess costs one retry made with
+the real segment size — and `C46.read_writes_exact_range` this gives: a read whose segment requests
+succeed delivers exactly the requested bytes after at most `⌈size/segsize⌉ + 2` requests.) -/
+theorem genuine_segment_is_accepted (s : Seg) (fs : Nat) (k pause : Bool) (hss : 0 < s.segsize)
+    (hsz : 0 < s.size) (hfit : s.offset + s.size ≤ fs) (hr : s.result = none) :
+    s.offset < (segStep s k (.segment (s.offset / s.segsize * s.segsize)
+        (min s.segsize (fs - s.offset / s.segsize * s.segsize)) pause)).offset ∧
+    (segStep s k (.segment (s.offset / s.segsize * s.segsize)
+        (min s.segsize (fs - s.offset / s.segsize * s.segsize)) pause)).offset +
+      (segStep s k (.segment (s.offset / s.segsize * s.segsize)
+        (min s.segsize (fs - s.offset / s.segsize * s.segsize)) pause)).size = s.offset + s.size ∧
+    ∀ e, (segStep s k (.segment (s.offset / s.segsize * s.segsize)
+        (min s.segsize (fs - s.offset / s.segsize * s.segsize)) pause)).result ≠ some (some e) := by
+  obtain ⟨hov, hlt⟩ := honest_overlap s.segsize s.offset s.size fs hss hsz hfit
+  obtain ⟨h1, h2, h3⟩ := accept_step s k pause _ _ _ hov
+  rw [h1, h2]
+  refine ⟨by omega, by omega, ?_⟩
+  intro e he
+  have := h3 e he
+  simp [hr] at this
+
+example : (segStep { segsize := 64, guess := 1000, offset := 70, size := 100, alive := true, active := some 1 }
+    true (.segment 64 64 false)).offset = 128 := by decide
 
 /-! ### concrete instances (the hypotheses are satisfiable, the conclusions are the expected ones) -/
 
